@@ -8,19 +8,19 @@ import (
 )
 
 const (
-	oAbsent = iota
-	oFile
-	oDir
-	oSymlink
-	oFifo
+	vh_oAbsent = iota
+	vh_oFile
+	vh_oDir
+	vh_oSymlink
+	vh_oFifo
 )
 
-func mkObj(base, name string, kind int, tag string, uid uint32) {
+func vh_mkObj(base, name string, kind int, tag string, uid uint32) {
 	p := base + "/" + name
 	switch kind {
-	case oFile:
+	case vh_oFile:
 		m.MkFile(p, v.Bytes(tag+"-data", 1), 0640, uid, uid, 9000000000)
-	case oDir:
+	case vh_oDir:
 		m.MkDir(p, 0750, uid, uid, 5)
 		if v.Bool(tag + "-child") {
 			m.MkFile(p+"/c"+tag[:1], v.Bytes(tag+"-cdata", 1), 0640, uid, uid, 9000000000)
@@ -29,14 +29,14 @@ func mkObj(base, name string, kind int, tag string, uid uint32) {
 			m.MkFile(p+"/k", v.Bytes(tag+"-kdata", 1), 0640, uid, uid, 9000000000)
 		}
 		m.SetMtime(p, 8000000000)
-	case oSymlink:
+	case vh_oSymlink:
 		m.MkSymlink(p, "tgt-"+tag[:1], uid, uid, 9000000000)
-	case oFifo:
+	case vh_oFifo:
 		m.MkNode(p, m.KFifo, 0640, 0, uid, uid, 9000000000)
 	}
 }
 
-type want struct {
+type vh_want struct {
 	kind    int
 	fromSrc bool // attributes and content come from the source entry at srcPath
 	srcPath string
@@ -47,18 +47,18 @@ type want struct {
 // source directory t onto it: directories merge, a source non-directory replaces a destination
 // non-directory of any type, unrelated destination entries stay, a directory meeting a
 // non-directory (either way) is a conflict unless always-replace lets the source win.
-func overlay(src, dst []m.Entry, srcDir, dstDir string, always bool, out map[string]want) (conflict bool) {
+func vh_overlay(src, dst []m.Entry, srcDir, dstDir string, always bool, out map[string]vh_want) (conflict bool) {
 	for i := range dst {
 		d := &dst[i]
-		if isUnder(d.Path, dstDir) {
-			out[d.Path] = want{kind: d.Kind, dstPath: d.Path}
+		if vh_isUnder(d.Path, dstDir) {
+			out[d.Path] = vh_want{kind: d.Kind, dstPath: d.Path}
 		}
 	}
 	var rec func(sdir, ddir string)
 	rec = func(sdir, ddir string) {
 		for i := range src {
 			s := &src[i]
-			if !isUnder(s.Path, sdir) || isUnder(s.Path[len(sdir)+1:], "") {
+			if !vh_isUnder(s.Path, sdir) || vh_isUnder(s.Path[len(sdir)+1:], "") {
 				continue
 			}
 			name := s.Path[len(sdir)+1:]
@@ -75,25 +75,25 @@ func overlay(src, dst []m.Entry, srcDir, dstDir string, always bool, out map[str
 			old, exists := out[dp]
 			switch {
 			case !exists:
-				out[dp] = want{kind: s.Kind, fromSrc: true, srcPath: s.Path}
+				out[dp] = vh_want{kind: s.Kind, fromSrc: true, srcPath: s.Path}
 				if s.Kind == m.KDir {
 					rec(s.Path, dp)
 				}
 			case s.Kind == m.KDir && old.kind == m.KDir:
 				rec(s.Path, dp) // merge
 			case s.Kind != m.KDir && old.kind != m.KDir:
-				out[dp] = want{kind: s.Kind, fromSrc: true, srcPath: s.Path}
+				out[dp] = vh_want{kind: s.Kind, fromSrc: true, srcPath: s.Path}
 			default:
 				if !always {
 					conflict = true
 					continue
 				}
 				for k := range out {
-					if isUnder(k, dp) {
+					if vh_isUnder(k, dp) {
 						delete(out, k)
 					}
 				}
-				out[dp] = want{kind: s.Kind, fromSrc: true, srcPath: s.Path}
+				out[dp] = vh_want{kind: s.Kind, fromSrc: true, srcPath: s.Path}
 				if s.Kind == m.KDir {
 					rec(s.Path, dp)
 				}
@@ -112,18 +112,18 @@ func VH_C15_overlay() {
 	m.Reset()
 	src, dst := m.Root("src"), m.Root("dst")
 	m.MkDir(src+"/t", 0755, 1, 1, 5)
-	mkObj(src+"/t", "x", 1+v.Choose("src-x", 3), "sx", 1) // file, dir, symlink
+	vh_mkObj(src+"/t", "x", 1+v.Choose("src-x", 3), "sx", 1) // file, dir, symlink
 	if v.Param("Y", 0) != 0 {
-		mkObj(src+"/t", "y", v.Choose("src-y", 3), "sy", 1)
+		vh_mkObj(src+"/t", "y", v.Choose("src-y", 3), "sy", 1)
 	}
 	m.SetMtime(src+"/t", 7000000000)
 
 	dstHasT := v.Bool("dst-has-t")
 	if dstHasT {
 		m.MkDir(dst+"/t", 0700, 2, 2, 5)
-		mkObj(dst+"/t", "x", v.Choose("dst-x", 5), "dx", 2)
+		vh_mkObj(dst+"/t", "x", v.Choose("dst-x", 5), "dx", 2)
 		if v.Param("Y", 0) != 0 {
-			mkObj(dst+"/t", "y", v.Choose("dst-y", 5), "dy", 2)
+			vh_mkObj(dst+"/t", "y", v.Choose("dst-y", 5), "dy", 2)
 		}
 		if v.Bool("dst-unrelated") {
 			m.MkFile(dst+"/t/z", []byte("z"), 0600, 2, 2, 9000000000)
@@ -145,24 +145,24 @@ func VH_C15_overlay() {
 	case ensured && !dirContents:
 		target = "t/t"
 	}
-	expect := map[string]want{}
+	expect := map[string]vh_want{}
 	for i := range dstBefore {
 		d := &dstBefore[i]
-		expect[d.Path] = want{kind: d.Kind, dstPath: d.Path}
+		expect[d.Path] = vh_want{kind: d.Kind, dstPath: d.Path}
 	}
 	if _, ok := expect["t"]; !ok && ensured {
-		expect["t"] = want{kind: m.KDir} // created as a parent: default attributes, not asserted
+		expect["t"] = vh_want{kind: m.KDir} // created as a parent: default attributes, not asserted
 	}
 	if target == "n/m" {
-		expect["n"] = want{kind: m.KDir}
+		expect["n"] = vh_want{kind: m.KDir}
 	}
 	conflict := false
 	if _, exists := expect[target]; !exists {
 		// in directory-contents mode the target directory is prepared with default attributes and
 		// only receives the contents; otherwise it is a copy of the source directory
-		expect[target] = want{kind: m.KDir, fromSrc: !dirContents, srcPath: "t"}
+		expect[target] = vh_want{kind: m.KDir, fromSrc: !dirContents, srcPath: "t"}
 	}
-	conflict = overlay(srcSnap, dstBefore, "t", target, always, expect)
+	conflict = vh_overlay(srcSnap, dstBefore, "t", target, always, expect)
 
 	ci := CopyInfo{CopyDirContents: dirContents, AlwaysReplaceExistingDestPaths: always}
 	err := Copy(context.Background(), src, "t", dst, dstArg, WithCopyInfo(ci))
@@ -174,7 +174,7 @@ func VH_C15_overlay() {
 		// the obstacle stays: every destination entry that collides by type is untouched
 		for i := range dstBefore {
 			d := &dstBefore[i]
-			a := findEntry(after, d.Path)
+			a := vh_findEntry(after, d.Path)
 			if w, ok := expect[d.Path]; ok && !w.fromSrc && w.dstPath == d.Path && (d.Kind != m.KDir) {
 				// kept entries (including obstacles) keep type and content
 				if a == nil {
@@ -201,14 +201,14 @@ func VH_C15_overlay() {
 		}
 		v.Assert(a.Kind == w.kind, "every overlay entry has the expected type")
 		if w.fromSrc {
-			s := findEntry(srcSnap, w.srcPath)
+			s := vh_findEntry(srcSnap, w.srcPath)
 			v.Assert(string(a.Data) == string(s.Data) && a.Target == s.Target, "an entry taken from the source has the source's bytes / link target")
 			v.Assert(a.Uid == s.Uid && a.Gid == s.Gid && a.Mtime == s.Mtime, "an entry taken from the source has the source's owner and mtime")
 			if s.Kind != m.KSymlink {
 				v.Assert(a.Perm == s.Perm, "an entry taken from the source has the source's mode")
 			}
 		} else if w.dstPath != "" && w.kind != m.KDir {
-			d := findEntry(dstBefore, w.dstPath)
+			d := vh_findEntry(dstBefore, w.dstPath)
 			v.Assert(string(a.Data) == string(d.Data) && a.Target == d.Target && a.Uid == d.Uid && a.Perm == d.Perm && a.Mtime == d.Mtime && a.Ino == d.Ino, "unrelated destination entries stay untouched")
 		}
 	}
